@@ -184,7 +184,7 @@ func verifNetText(n netip.Prefix) string {
 // labels of letters, no empty label, a final label of >= 2 letters or the "*" wildcard.
 func verifDomainOK(d string) bool {
 	n := len(d)
-	if n < 3 || d[0] == '.' || d[0] == '*' {
+	if n < 2 || d[0] == '.' || d[0] == '*' {
 		return false
 	}
 	ok := true
@@ -200,7 +200,8 @@ func verifDomainOK(d string) bool {
 		ok = false
 	}
 	// the last label has at least two letters unless it is the wildcard
-	if d[n-1] != '*' && (d[n-2] == '.' || !verifHasDot(d)) {
+	// (a single label such as "org" is a valid $domain value)
+	if d[n-1] != '*' && d[n-2] == '.' {
 		ok = false
 	}
 	return ok
